@@ -731,13 +731,24 @@ impl TryFrom<&mut Peekable<Lexer>> for ParserNode {
                                     lex.raw_token,
                                 ));
                             }
-                            PseudoType::Bltz | PseudoType::Bgtz => {
+                            PseudoType::Bltz => {
                                 let rs1 = lex.get_reg()?;
                                 let label = lex.get_label()?;
                                 return Ok(ParserNode::new_branch(
                                     With::new(BranchType::Blt, next_node.clone()),
                                     rs1,
                                     With::new(Register::X0, next_node.clone()),
+                                    label,
+                                    lex.raw_token,
+                                ));
+                            }
+                            PseudoType::Bgtz => {
+                                let rs1 = lex.get_reg()?;
+                                let label = lex.get_label()?;
+                                return Ok(ParserNode::new_branch(
+                                    With::new(BranchType::Blt, next_node.clone()),
+                                    With::new(Register::X0, next_node.clone()),
+                                    rs1,
                                     label,
                                     lex.raw_token,
                                 ));
@@ -778,11 +789,11 @@ impl TryFrom<&mut Peekable<Lexer>> for ParserNode {
                             PseudoType::Snez => {
                                 let rd = lex.get_reg()?;
                                 let rs1 = lex.get_reg()?;
-                                return Ok(ParserNode::new_iarith(
-                                    With::new(IArithType::Sltiu, next_node.clone()),
+                                return Ok(ParserNode::new_arith(
+                                    With::new(ArithType::Sltu, next_node.clone()),
                                     rd,
+                                    With::new(Register::X0, next_node.clone()),
                                     rs1,
-                                    With::new(Imm::new(0), next_node.clone()),
                                     lex.raw_token,
                                 ));
                             }
@@ -795,13 +806,24 @@ impl TryFrom<&mut Peekable<Lexer>> for ParserNode {
                                     lex.raw_token,
                                 ));
                             }
-                            PseudoType::Bgez | PseudoType::Blez => {
+                            PseudoType::Bgez => {
                                 let rs1 = lex.get_reg()?;
                                 let label = lex.get_label()?;
                                 return Ok(ParserNode::new_branch(
                                     With::new(BranchType::Bge, next_node.clone()),
                                     rs1,
                                     With::new(Register::X0, next_node.clone()),
+                                    label,
+                                    lex.raw_token,
+                                ));
+                            }
+                            PseudoType::Blez => {
+                                let rs1 = lex.get_reg()?;
+                                let label = lex.get_label()?;
+                                return Ok(ParserNode::new_branch(
+                                    With::new(BranchType::Bge, next_node.clone()),
+                                    With::new(Register::X0, next_node.clone()),
+                                    rs1,
                                     label,
                                     lex.raw_token,
                                 ));
